@@ -76,9 +76,9 @@ theorem format_numeric_string_eq' (f : FormatSpec) (text : List Nat) (nt : NumTy
     (hpad : f.pad < 256)
     (hmin : -(2:Int)^31 ≤ f.minimumLength ∧ f.minimumLength < (2:Int)^31)
     (hlen : text.length < 2 ^ 62) :
-    Kernels.format_numeric_string text (toChar f.pad) f.minimumLength
-      (if f.alwaysSigned then 1 else 0) (if f.classPrefix then 1 else 0) (digitCode f.digitClass)
-      (if f.numericPad then 1 else 0) (alignCode f.alignment) 0 text.length (numCode nt)
+    Kernels.format_numeric_string text (alignCode f.alignment)
+      (if f.alwaysSigned then 1 else 0) (if f.classPrefix then 1 else 0) (digitCode f.digitClass) f.minimumLength
+      (if f.numericPad then 1 else 0) (toChar f.pad) 0 text.length (numCode nt)
       = .ok ((formatNumericString f text nt).map ofEvent) := by
   unfold Kernels.format_numeric_string formatNumericString padOf
   simp only [pad_size_eq f text.length nt hmin hlen, format_numeric_prefix_eq f nt, rdRange_all,
@@ -89,9 +89,9 @@ theorem format_numeric_string_eq (f : FormatSpec) (text : List Nat) (nt : NumTyp
     (hpad : f.pad < 256)
     (hmin : -(2:Int)^31 ≤ f.minimumLength ∧ f.minimumLength < (2:Int)^31)
     (hlen : text.length < 2 ^ 62) :
-    ∃ evs, Kernels.format_numeric_string text (toChar f.pad) f.minimumLength
-      (if f.alwaysSigned then 1 else 0) (if f.classPrefix then 1 else 0) (digitCode f.digitClass)
-      (if f.numericPad then 1 else 0) (alignCode f.alignment) 0 text.length (numCode nt) = .ok evs
+    ∃ evs, Kernels.format_numeric_string text (alignCode f.alignment)
+      (if f.alwaysSigned then 1 else 0) (if f.classPrefix then 1 else 0) (digitCode f.digitClass) f.minimumLength
+      (if f.numericPad then 1 else 0) (toChar f.pad) 0 text.length (numCode nt) = .ok evs
       ∧ evs.map evOf = formatNumericString f text nt :=
   ⟨_, format_numeric_string_eq' f text nt hpad hmin hlen, map_evOf_map_ofEvent _⟩
 
